@@ -7,6 +7,7 @@ import (
 	"bytes"
 	"fmt"
 	"math/big"
+	"reflect"
 	"testing"
 	"time"
 
@@ -62,6 +63,63 @@ func TestDirected(t *testing.T) {
 		ev.Case(true, "directed doc examples", "directed")
 	})
 
+	t.Run("typecache-concurrent-first-use", func(t *testing.T) {
+		// 8 goroutines meet 64 types that the process has never seen (unique array lengths), each in another order;
+		// every encode/decode must equal the reference encoder / the value, whoever generated the type info.
+		const K, G = 64, 8
+		descs := make([]*desc, K)
+		vals := make([]*mval, K)
+		for i := range descs {
+			in := &desc{k: kStruct, fields: []fieldDesc{{d: &desc{k: kByteArr, n: 41 + i}}, {d: &desc{k: kPtr, elem: &desc{k: kUint, uname: "uint16", n: 16}}, nilTag: "nil"}}}
+			descs[i] = &desc{k: kStruct, fields: []fieldDesc{{d: &desc{k: kUint, uname: "uint64", n: 64}}, {d: &desc{k: kByteArr, n: 40 + i}},
+				{d: &desc{k: kSlice, elem: in}}, {d: &desc{k: kBytes}, optional: true}}}
+			e := func(x byte, p *mval) *mval {
+				return &mval{l: []*mval{{b: bytes.Repeat([]byte{x}, 41+i)}, {p: p}}}
+			}
+			vals[i] = &mval{l: []*mval{{u: uint64(i) << 20}, {b: bytes.Repeat([]byte{byte(i)}, 40+i)}, {l: []*mval{e(1, nil), e(0x80, &mval{u: 300})}}, {b: []byte{byte(i)}}}}
+			descs[i].rtype(flK) // reflect.StructOf is done up front: only lib/rlp's cache is raced
+		}
+		errs := make(chan string, K*G)
+		done := make(chan bool)
+		for g := 0; g < G; g++ {
+			go func(g int) {
+				defer func() {
+					if r := recover(); r != nil {
+						errs <- fmt.Sprintf("goroutine %d: panic: %v", g, r)
+					}
+					done <- true
+				}()
+				for j := 0; j < K; j++ {
+					i := (j*7 + g*8) % K
+					d := descs[i]
+					pk := reflect.New(d.rtype(flK))
+					build(d, pk.Elem(), vals[i])
+					enc, err := krlp.EncodeToBytes(pk.Interface())
+					if want := refEncode(d, vals[i]); err != nil || !bytes.Equal(enc, want) {
+						errs <- fmt.Sprintf("goroutine %d type %d: encode %x (err %v), reference %x", g, i, enc, err, want)
+						continue
+					}
+					back := reflect.New(d.rtype(flK))
+					bad := ""
+					if err := krlp.DecodeBytes(enc, back.Interface()); err != nil {
+						errs <- fmt.Sprintf("goroutine %d type %d: decode own encoding: %v", g, i, err)
+					} else if gv, w := renderS(d, readback(d, back.Elem(), &bad)), renderS(d, vals[i]); gv != w {
+						errs <- fmt.Sprintf("goroutine %d type %d: round trip %s, want %s", g, i, gv, w)
+					}
+				}
+			}(g)
+		}
+		for g := 0; g < G; g++ {
+			<-done
+		}
+		close(errs)
+		for e := range errs {
+			ev.Violation(t, "typecache.concurrent-first-use", "64 fresh types x 8 goroutines", "%s", e)
+		}
+		ev.Count(K * G)
+		ev.ClassN("directed-concurrent-first-use", K*G)
+	})
+
 	t.Run("huge-claims-everywhere", func(t *testing.T) {
 		targets := []*target{tgIface, tgBytes, staticTargets[2], tgU64, tgBigV, tgRaw, staticTargets[15], staticTargets[16], tgRich, tgOpt, tgRec, staticTargets[22]}
 		n := 0
@@ -87,6 +145,7 @@ func TestDirected(t *testing.T) {
 							}
 							checkStreams(t, b, 1000)
 							checkRawHelpers(t, b)
+							checkStreamScalars(t, b)
 							n++
 						}
 					}
@@ -109,6 +168,7 @@ func TestDirected(t *testing.T) {
 					checkDecode(t, tg, b, "exhaustive")
 				}
 				checkRawHelpers(t, b)
+				checkStreamScalars(t, b)
 				checkStreams(t, b, 5)
 			})
 			if lim := uint64(len(targets)+4) * allocSlack; delta > lim {
